@@ -745,7 +745,8 @@ package reflect
 //@   requires c13_default: rvKind(rvStrip(x.Default)) != reflect.Invalid ==> rvCanAddr(rvStrip(x.Default))
 //@   modifies fields(f), $brk, $maps
 //@   panics when (x.Opts % 2 == 1) && descOf(x.Type).WT != tSTRING
-//@   ensures c12_field: f.ID == x.ID && f.Offset == x.F && f.Spec == x.Spec && f.Type == descOf(x.Type) && (f.NoCopy <==> x.Opts % 2 == 1)
+//@   ensures c12_field: f.ID == x.ID && f.Offset == x.F && f.Spec == x.Spec && f.Type == descOf(x.Type) && f.Type != nil && wfT(f.Type) && (f.NoCopy <==> x.Opts % 2 == 1)
+//@   ensures old($brk) <= $brk
 //@   ensures c10_skipnil: f.CanSkipEncodeIfNil <==> (x.Spec == defs.Optional && (f.Type.Tag == defs.T_pointer || f.Type.Tag == defs.T_binary || f.Type.T == tMAP || f.Type.T == tLIST || f.Type.T == tSET))
 //@   ensures c10_skipdefault: f.CanSkipIfDefault <==> (x.Spec == defs.Optional && f.Type.Tag != defs.T_pointer && rvKind(rvStrip(x.Default)) != reflect.Invalid)
 //@   ensures c10_default: rvKind(rvStrip(x.Default)) != reflect.Invalid ==> f.Default == rvAddr(rvStrip(x.Default)) && f.Default != nil
@@ -1226,3 +1227,38 @@ package reflect
 //@   panics when t.T != tMAP
 //@   ensures c02_registered: implementsAppend(t)
 
+
+//@ func (f *tField) EncodedSize() (n int)
+//@   requires f != nil && f.Type != nil
+//@   modifies nothing
+//@   ensures c04_fixed: (n > 0 <==> fixedF(f)) && (fixedF(f) ==> n == 3 + f.Type.FixedSize)
+
+// --- fromDefsFields (desc.go): the id index, built from the parsed field list ------------------
+//@ func (d *structDesc) fromDefsFields(ff []defs.Field)
+//@   requires d != nil && len(ff) <= 65536 && d.fixedLenFieldSize == 0
+//@   requires forall i int :: {ff[i]} 0 <= i && i < len(ff) ==> ff[i].Type != nil && 0 <= ff[i].F
+//@       && (rvKind(rvStrip(ff[i].Default)) != reflect.Invalid ==> rvCanAddr(rvStrip(ff[i].Default)))
+//@   modifies fields(d), $brk, $maps
+//@   panics when exists i int :: 0 <= i && i < len(ff) && ff[i].Opts % 2 == 1 && descOf(ff[i].Type).WT != tSTRING
+//@   ensures c12_index: len(d.fieldIdx) == d.maxID + 1 && len(d.fields) == len(ff)
+//@   ensures c12_idx: forall k int :: {d.fieldIdx[k]} 0 <= k && k < len(d.fieldIdx) ==> -1 <= d.fieldIdx[k] && d.fieldIdx[k] < len(d.fields) && (d.fieldIdx[k] >= 0 ==> d.fields[d.fieldIdx[k]].ID == k)
+//@   ensures c12_fields: forall i int :: {d.fields[i]} 0 <= i && i < len(ff) ==> d.fields[i] != nil && d.fields[i].ID == ff[i].ID && d.fields[i].Offset == ff[i].F && d.fields[i].Spec == ff[i].Spec && d.fields[i].Type == descOf(ff[i].Type) && d.fieldIdx[ff[i].ID] >= 0
+//@   ensures c09_required: forall j int :: {d.requiredFieldIDs[j]} 0 <= j && j < len(d.requiredFieldIDs) ==> d.requiredFieldIDs[j] <= d.maxID && d.fieldIdx[d.requiredFieldIDs[j]] >= 0
+//@   ensures c04_var: forall j int :: {d.varLenFields[j]} 0 <= j && j < len(d.varLenFields) ==> 0 <= d.varLenFields[j] && d.varLenFields[j] < len(d.fields)
+//@   loop 0 invariant forall j int :: {ff[j]} 0 <= j && j <= rangeindex ==> ff[j].ID <= maxFieldID
+//@   loop 1 invariant len(d.fieldIdx) == d.maxID + 1 && (forall j int :: {ff[j]} 0 <= j && j < len(ff) ==> ff[j].ID <= d.maxID) && old($brk) <= d.fieldIdx.ptr
+//@   loop 1 invariant forall k int :: {d.fieldIdx[k]} 0 <= k && k <= rangeindex ==> d.fieldIdx[k] == -1
+//@   loop 2 invariant len(d.fieldIdx) == d.maxID + 1 && len(d.fields) == len(ff) && len(fields) == len(ff) && (forall j int :: {ff[j]} 0 <= j && j < len(ff) ==> ff[j].ID <= d.maxID)
+//@   loop 2 invariant old($brk) <= d.fieldIdx.ptr && old($brk) <= d.fields.ptr && old($brk) <= fields.ptr && d.fixedLenFieldSize == 0
+//@   loop 2 invariant idx: forall k int :: {d.fieldIdx[k]} 0 <= k && k < len(d.fieldIdx) ==> -1 <= d.fieldIdx[k] && d.fieldIdx[k] <= rangeindex && (d.fieldIdx[k] >= 0 ==> d.fields[d.fieldIdx[k]].ID == k)
+//@   loop 2 invariant flds: forall i int :: {d.fields[i]} 0 <= i && i <= rangeindex ==> d.fields[i] == fields[i] && d.fields[i].ID == ff[i].ID && d.fields[i].Offset == ff[i].F && d.fields[i].Spec == ff[i].Spec && d.fields[i].Type == descOf(ff[i].Type) && d.fields[i].Type != nil && wfT(d.fields[i].Type) && d.fieldIdx[ff[i].ID] >= 0
+//@   loop 2 invariant fresh: forall i int :: {fields[i]} rangeindex < i && i < len(ff) ==> !fields[i].CanSkipIfDefault && fields[i].Default == nil
+//@   loop 3 invariant len(d.fieldIdx) == d.maxID + 1 && len(d.fields) == len(ff)
+//@   loop 3 invariant old($brk) <= d.fieldIdx.ptr && old($brk) <= d.fields.ptr && old($brk) <= d.varLenFields.ptr && old($brk) <= d.requiredFieldIDs.ptr
+//@   loop 3 invariant d.fieldIdx.ptr + 8 * len(d.fieldIdx) <= d.varLenFields.ptr || d.varLenFields.ptr + 8 * len(ff) <= d.fieldIdx.ptr
+//@   loop 3 invariant idx: forall k int :: {d.fieldIdx[k]} 0 <= k && k < len(d.fieldIdx) ==> -1 <= d.fieldIdx[k] && d.fieldIdx[k] < len(d.fields) && (d.fieldIdx[k] >= 0 ==> d.fields[d.fieldIdx[k]].ID == k)
+//@   loop 3 invariant flds: forall i int :: {d.fields[i]} 0 <= i && i < len(ff) ==> d.fields[i] != nil && d.fields[i].ID == ff[i].ID && d.fields[i].Offset == ff[i].F && d.fields[i].Spec == ff[i].Spec && d.fields[i].Type == descOf(ff[i].Type) && d.fields[i].Type != nil && wfT(d.fields[i].Type) && d.fieldIdx[ff[i].ID] >= 0
+//@   loop 3 invariant req: forall j int :: {d.requiredFieldIDs[j]} 0 <= j && j < len(d.requiredFieldIDs) ==> d.requiredFieldIDs[j] <= d.maxID && d.fieldIdx[d.requiredFieldIDs[j]] >= 0
+//@   loop 3 invariant var: forall j int :: {d.varLenFields[j]} 0 <= j && j < len(d.varLenFields) ==> 0 <= d.varLenFields[j] && d.varLenFields[j] <= rangeindex
+//@   loop 3 invariant len(d.varLenFields) <= rangeindex + 1 && len(d.requiredFieldIDs) <= rangeindex + 1 && cap(d.varLenFields) == len(ff) && cap(d.requiredFieldIDs) == len(ff)
+//@   loop 3 invariant 0 <= d.fixedLenFieldSize && d.fixedLenFieldSize <= 11 * (rangeindex + 1)
